@@ -177,6 +177,10 @@ def alphabet(tree, level="full"):
         ("sort_", "size"),
         ("sort_", "root"),
         ("sort_", "leaves"),
+        # keeping the current explicit orders (reset=False)
+        ("sort_", "root", "keep"),
+        ("sort_", "flops", "keep"),
+        ("sort_", "size", "keep-nocontig"),
         ("reset_inds",),
         # copying variants of the composite transformations
         ("forest", 0),
@@ -337,7 +341,13 @@ def apply_op(obj, op):
             _target(t, op[1]), num_trees=2, max_repeats=4, parallel=False,
             reconf_opts={"subtree_size": 3, "maxiter": 2})
     elif name == "sort_":
-        t.sort_contraction_indices(priority=op[1])
+        if len(op) == 2:
+            t.sort_contraction_indices(priority=op[1])
+        elif op[2] == "keep":
+            t.sort_contraction_indices(priority=op[1], reset=False)
+        else:
+            t.sort_contraction_indices(priority=op[1], reset=False,
+                                       make_output_contig=False)
     elif name == "reset_inds":
         t.reset_contraction_indices()
     else:
